@@ -39,7 +39,8 @@ P_CODE = [d for d in D_CODE if not any(t in d for t in ("not", "~", "*", ":", ".
 BODY_TAILS = ["pass", "return None", "return 5", "return a", "return (a)", "return a, b", "return (1, 2)", "return a.b",
               "return 'x'.join", "return 'x'", "return -1", "return -x", "return not a", "return ~5", "return -'s'",
               "return np.empty(0), np.empty(0)", "return f(a)", "return [a]", "return a[0]", "return", "return a + 1",
-              "return 2.5", "return True", "return {'a': 1}", "x = 1\n    return x", "return 5[0]", "return -None"]
+              "return 2.5", "return True", "return {'a': 1}", "x = 1\n    return x", "return 5[0]", "return -None", "return not True", "return not 0",
+              "return not None", "return not 'x'", "return not 2.5", "return ~True"]
 RET_ANNS = [None, None, None, "int", "str", "Tuple[int, str]", "np.ndarray", "'C'", "Optional[int]", "None"]
 PROSE = ["the a", "the value.", "name of thing", "Optional thing", "(Optional) setting", "number of items.",
          "path to\n        the file", "x  y ", "learning rate", "", "Optional[int] wrapper"]
